@@ -57,10 +57,24 @@ Definition qlit_eqb (a b : qlit) : bool := Z.eqb (qn a) (qn b) && Pos.eqb (qd a)
 Definition qrow_eqb (a b : qrow) : bool :=
   Nat.eqb (length a) (length b) &&
   forallb (fun xy => N.eqb (fst (fst xy)) (fst (snd xy)) && qlit_eqb (snd (fst xy)) (snd (snd xy))) (combine a b).
+Fixpoint mexpr_eqb (a b : mexpr) : bool :=
+  match a, b with
+  | MRat p, MRat q => qlit_eqb p q
+  | MAdd a1 a2, MAdd b1 b2 => mexpr_eqb a1 b1 && mexpr_eqb a2 b2
+  | MMul a1 a2, MMul b1 b2 => mexpr_eqb a1 b1 && mexpr_eqb a2 b2
+  | MPow z e, MPow z' e' => Z.eqb z z' && qlit_eqb e e'
+  | _, _ => false
+  end.
+(* component codes: 10 = mu, 11 = exact atomic masses, 12 = C, 13 = C^-1, 14 = exact days-per-year, 15 = lengths *)
 Definition gens_diff (a b : dataset) : list (N * list N) :=
   let diff (x y : list qrow) := map fst (filter (fun ir => negb (qrow_eqb (fst (snd ir)) (snd (snd ir))))
                                           (indexed 0%N (combine x y))) in
   filter (fun x => match snd x with [] => false | _ => true end)
     [ (12%N, diff (ds_c a) (ds_c b)); (13%N, diff (ds_ci a) (ds_ci b));
       (10%N, map fst (filter (fun ir => negb (qlit_eqb (fst (snd ir)) (snd (snd ir))))
-                             (indexed 0%N (combine (ds_mu a) (ds_mu b))))) ].
+                             (indexed 0%N (combine (ds_mu a) (ds_mu b)))));
+      (11%N, map fst (filter (fun ir => negb (mexpr_eqb (fst (snd ir)) (snd (snd ir))))
+                             (indexed 0%N (combine (ds_masses_e a) (ds_masses_e b)))));
+      (14%N, if qlit_eqb (ds_year_e a) (ds_year_e b) then [] else [0%N]);
+      (15%N, if Nat.eqb (length (ds_masses_e a)) (length (ds_masses_e b)) && Nat.eqb (length (ds_mu a)) (length (ds_mu b)) &&
+                Nat.eqb (length (ds_c a)) (length (ds_c b)) && Nat.eqb (length (ds_ci a)) (length (ds_ci b)) then [] else [0%N]) ].
